@@ -786,10 +786,62 @@ func (c *Case) buildEnc(enc encode.Encoder) (*trie.SlimTrie, error) {
 		}
 		vals = boxed
 	}
-	if c.Opt == (OptSpec{}) && sel%2 == 0 {
-		return trie.NewSlimTrie(enc, c.keys(), vals)
+	keys := c.keys()
+	if sel%3 == 1 {
+		// the caller cut its keys out of ONE string: a key that is a prefix of the
+		// next key starts at the same address
+		keys = sharedBacking(keys)
 	}
-	return trie.NewSlimTrie(enc, c.keys(), vals, c.Opt.opt())
+	if bv, ok := vals.([][]byte); ok && sel%4 == 3 {
+		// ... and its values out of one buffer (capacity reaches into the next value)
+		total := 0
+		for _, v := range bv {
+			total += len(v)
+		}
+		buf := make([]byte, 0, total)
+		packed := make([][]byte, len(bv))
+		for i, v := range bv {
+			at := len(buf)
+			buf = append(buf, v...)
+			packed[i] = buf[at:len(buf)]
+		}
+		vals = packed
+	}
+	if sel%16 == 5 {
+		runtime.GC() // pooled or weakly held builder state does not survive a collection
+	}
+	if c.Opt == (OptSpec{}) && sel%2 == 0 {
+		return trie.NewSlimTrie(enc, keys, vals)
+	}
+	return trie.NewSlimTrie(enc, keys, vals, c.Opt.opt())
+}
+
+// sharedBacking returns equal keys that are all substrings of one string; a key
+// that is a prefix of its successor shares the successor's start address.
+func sharedBacking(keys []string) []string {
+	n := len(keys)
+	out := make([]string, n)
+	isPref := make([]bool, n)
+	for i := 0; i+1 < n; i++ {
+		isPref[i] = strings.HasPrefix(keys[i+1], keys[i])
+	}
+	offs := make([]int, n)
+	var sb strings.Builder
+	for i := 0; i < n; i++ {
+		if !isPref[i] {
+			offs[i] = sb.Len()
+			sb.WriteString(keys[i])
+		}
+	}
+	all := sb.String()
+	for i := n - 1; i >= 0; i-- {
+		if !isPref[i] {
+			out[i] = all[offs[i] : offs[i]+len(keys[i])]
+		} else {
+			out[i] = out[i+1][:len(keys[i])]
+		}
+	}
+	return out
 }
 
 // loadTarget is the instance a stream is loaded into: a new empty trie, or
